@@ -401,36 +401,29 @@ class Ctx(object):
             return
         r.status = 'holds'
 
-    def nd_names(self, ob):
-        with open(os.path.join(HDIR, ob.harness)) as fh:
-            s = fh.read()
-        # also the harness-local includes
-        for inc in re.findall(r'#\s*include\s+"(vfh_[\w.-]+)"', s):
-            with open(os.path.join(HDIR, inc)) as fh:
-                s += fh.read()
-        sc = set(m.group(1) for m in re.finditer(r'\bND\(\s*\w+\s*,\s*(\w+)\s*\)', s))
-        ar = set(m.group(1) for m in re.finditer(r'\bND_ARR\(\s*\w+\s*,\s*(\w+)\s*,', s))
-        return sc, ar
-
     def trace_inputs(self, ob, trace):
-        sc, ar = self.nd_names(ob)
+        """symbolic inputs of the harness: by convention every ND() variable is
+        named v<something> and lives in the harness entry function; ND_ARR
+        elements are assigned through <name>_i / <name>_e"""
         vals = {}
         idx = {}
         for s in trace:
             if s.get('stepType') != 'assignment':
                 continue
+            if s.get('sourceLocation', {}).get('function') != ob.func:
+                continue
             lhs = s.get('lhs', '')
             v = s.get('value', {})
-            if 'data' not in v:
+            if 'data' not in v or not re.fullmatch(r'v\w*', lhs):
                 continue
-            data = v['data']
-            if lhs in sc:
-                vals[lhs] = parse_c_int(data, v)
-            elif lhs.endswith('_i') and lhs[:-2] in ar:
-                idx[lhs[:-2]] = parse_c_int(data, v)
-            elif lhs.endswith('_e') and lhs[:-2] in ar:
+            n = parse_c_int(v['data'], v)
+            if lhs.endswith('_i'):
+                idx[lhs[:-2]] = n
+            elif lhs.endswith('_e'):
                 a = lhs[:-2]
-                vals['%s[%d]' % (a, idx.get(a, 0))] = parse_c_int(data, v)
+                vals['%s[%d]' % (a, idx.get(a, 0))] = n
+            else:
+                vals[lhs] = n
         return vals
 
     # ------------------------------------------------------------------
